@@ -192,6 +192,7 @@ class Runner:
     def __init__(self, keyed_weights=True):
         self.keyed_weights = keyed_weights
         self.out = []
+        self.scen_no = 0
         self.reset()
 
     # ---- scenario state -------------------------------------------------------------------
@@ -203,7 +204,7 @@ class Runner:
         self.results = []
         self.steps = 0
         self.aborted = False
-        self.system = System()
+        self.system = self.make_system()
         self.env = self.system.env
         self.in_bystander = True
         self.bystanders = [Environment('bystander')]
@@ -220,6 +221,9 @@ class Runner:
         v = int(v)
         self._numc += 1
         return v if self._numc % 3 == 0 else Num(v)
+
+    def make_system(self):
+        return System()
 
     # ---- canonicalisation -----------------------------------------------------------------
     def canon_asset(self, asset_id):
@@ -337,6 +341,10 @@ class Runner:
         CTX = self
         k = toks[0]
         if k == 'scenario':
+            try:
+                self.scen_no = int(toks[1])
+            except (IndexError, ValueError):
+                self.scen_no = 0
             self.reset()
             self.out.append(f'scenario {toks[1]}')
         elif k == 'seed':
